@@ -20,7 +20,7 @@ Lemma patch_stable_no_route c n g : no_route_writes (tr_writes (patch_stable_ser
 Proof. unfold patch_stable_service. destruct (negb (tc_refs c)); [reflexivity|]. destruct (negb (n_stable_exists n)); [reflexivity|].
   destruct (with_grace _ _ _ _ _) as [rt g']. cbn [tr_writes]. destruct (negb _); reflexivity. Qed.
 Lemma restore_gateway_no_route c n g : no_route_writes (tr_writes (restore_gateway c n g)).
-Proof. unfold restore_gateway, finalise_routes. destruct (negb (tc_refs c)); [reflexivity|]. destruct (n_route n);
+Proof. unfold restore_gateway, finalise_routes. destruct (negb (tc_refs c)); [reflexivity|]. destruct (tc_gateway_fails c); [reflexivity|]. destruct (n_route n);
   destruct (with_grace _ _ _ _ _) as [rt g']; reflexivity. Qed.
 Lemma remove_canary_no_route c n g : no_route_writes (tr_writes (remove_canary_service c n g)).
 Proof. unfold remove_canary_service. destruct (negb (tc_refs c)); [reflexivity|].
@@ -48,6 +48,7 @@ Proof.
   2:{ left. destruct (n_stable_sel n) as [ss|]; [destruct (String.eqb ss (tc_stable_rev c))|]; reflexivity. }
   destruct (n_stable_sel n) as [ss|] eqn:Es; [destruct (String.eqb ss (tc_stable_rev c)) eqn:Ess|]; [|left; reflexivity|left; reflexivity].
   cbn [app]. apply String.eqb_eq in Ecs, Ess. subst cs ss.
+  destruct (tc_gateway_fails c); [left; reflexivity|].
   unfold ensure_routes. destruct (n_route n) as [|x] eqn:Er.
   - destruct (strategy_eqb (tc_strategy c) init_strategy); [left; reflexivity|]. right. repeat split; auto.
     + destruct (tc_last_update c) as [[|]|]; congruence.
@@ -76,6 +77,7 @@ Proof.
   destruct (n_canary_svc n) as [cs|]; [destruct (String.eqb cs (tc_canary_rev c)) eqn:Ecs|];
   (destruct (n_stable_sel n) as [ss|]; [destruct (String.eqb ss (tc_stable_rev c)) eqn:Ess|]); cbn [app tr_ok]; try discriminate.
   apply String.eqb_eq in Ecs, Ess. subst.
+  destruct (tc_gateway_fails c); [discriminate|].
   unfold ensure_routes. destruct (n_route n) as [|x].
   - destruct (strategy_eqb (tc_strategy c) init_strategy) eqn:E; cbn [tr_ok tr_writes]; [|discriminate]. intros _.
     apply strategy_eqb_eq in E. auto 6.
@@ -419,7 +421,7 @@ Qed.
 Lemma restore_gateway_ok_effect c n g : tc_refs c = true -> tr_ok (restore_gateway c n g) = true ->
   n_route (apply_writes n (tr_writes (restore_gateway c n g))) = RNone.
 Proof.
-  intros Hr. unfold restore_gateway, finalise_routes. rewrite Hr. cbn [negb].
+  intros Hr. unfold restore_gateway, finalise_routes. rewrite Hr. cbn [negb]. destruct (tc_gateway_fails c); [discriminate|].
   destruct (n_route n) eqn:Er; destruct (with_grace _ _ _ _ _) as [rt g']; cbn; intros _; [exact Er|reflexivity].
 Qed.
 
@@ -489,3 +491,27 @@ Proof.
   apply restore_stable_ok_effect; auto.
 Qed.
 
+
+(* ---- C06: the wait after a Service change survives a restart because it is measured on the persisted status ---- *)
+Definition is_service_write_w (w : write) : bool := match w with WCreateCanarySvc _ | WPatchCanarySvc _ | WPinStable _ | WUnpinStable => true | _ => false end.
+
+Lemma do_traffic_service_write_touches c n g : existsb is_service_write_w (tr_writes (do_traffic_routing c n g)) = true -> tr_touched (do_traffic_routing c n g) = true.
+Proof.
+  unfold do_traffic_routing.
+  destruct (negb (tc_refs c)); [discriminate|]. destruct (strategy_empty (tc_strategy c)); [discriminate|].
+  destruct (negb (n_stable_exists n)); [discriminate|]. destruct (match tc_last_update c with Some false => true | _ => false end); [discriminate|].
+  destruct (sempty (tc_stable_rev c) || sempty (tc_canary_rev c)); [discriminate|].
+  destruct (_ ++ _) eqn:E; [|reflexivity].
+  destruct (tc_gateway_fails c); [discriminate|]. unfold ensure_routes. destruct (n_route n); [destruct (strategy_eqb _ _)|destruct (strategy_eqb _ _)]; cbn; discriminate.
+Qed.
+
+Lemma traffic_service_change_is_persisted t u w br cur n g o :
+  canary_step_tr t u w br cur n g [] = CrOut o -> su_state u = StTraffic -> co_err o = false ->
+  existsb is_service_write_w (co_writes o) = true -> su_elapsed (co_sub o) = false.
+Proof.
+  unfold canary_step_tr, cr. intros H Hs. rewrite Hs in H. revert H.
+  set (r := do_traffic_routing (mk_ctx t u) n g).
+  destruct (tr_err r) eqn:Er; intros H; injection H as <-; cbn [co_err co_writes co_sub app]; [discriminate|].
+  intros _ Hw. pose proof (do_traffic_service_write_touches _ _ _ Hw) as Ht. fold r in Ht.
+  unfold touch. rewrite Ht. destruct (tr_ok r); reflexivity.
+Qed.
